@@ -7,7 +7,10 @@ import (
 	"github.com/glebziz/fs_db/internal/verif/simrt"
 )
 
-var keyPool = []string{"a", "b", "c", "key-ü-ключ-鍵", "dir/with/slash", "sp ace", strings.Repeat("long", 80), "Z", "a.b", "0"}
+// the last three are long and made of multi-byte characters (2, 3 and 2 bytes each, at different
+// alignments): whatever quotes, cuts or pads a key by bytes meets a character boundary problem
+var keyPool = []string{"a", "b", "c", "key-ü-ключ-鍵", "dir/with/slash", "sp ace", strings.Repeat("long", 80), "Z", "a.b", "0",
+	strings.Repeat("ключ", 70), "k" + strings.Repeat("鍵", 190), strings.Repeat("é", 333) + "-z"}
 
 func genKeys(r *simrt.Rand, lo, hi int) []string {
 	n := lo + r.Intn(hi-lo+1)
@@ -113,9 +116,14 @@ func genSeqCase(r *simrt.Rand, p seqProfile) SeqCase {
 			o.K = "set"
 		case 1:
 			o.K = "setr"
-			o.Shape = []string{"plain", "byte", "short", "zero", "dataeof", "preread", "prereadstr"}[r.Intn(7)]
+			o.Shape = []string{"plain", "byte", "short", "zero", "dataeof", "preread", "prereadstr", "failing"}[r.Intn(8)]
 			if o.Shape == "byte" && o.Size > 3000 {
 				o.Shape = "short"
+			}
+			if o.Shape == "failing" && p.walk == "final" {
+				// (C14 speaks of fault-free histories: a write whose source fails leaves its partial
+				// content file behind, which no listed property forbids)
+				o.Shape = "plain"
 			}
 		default:
 			o.K = "create"
